@@ -210,8 +210,9 @@ def gen_problem(rng, njobs=None, metric=None, nlocs=None, tight=None, multi=True
                         cand = [l for l in range(n) if l not in used]
                         if cand:
                             p['location'] = {'index': rng.choice(cand)}
-        if skills and rng.chance(1, 10):
-            job['skills'] = {'allOf': [rng.choice(all_skills)]}
+        if skills and rng.chance(1, 6):
+            # one or both skills (a two-skill job can only be served by the vehicle type that has both)
+            job['skills'] = {'allOf': rng.shuffle(all_skills)[:rng.range(1, 2)]}
         jobs.append(job)
 
     problem = {'plan': {'jobs': jobs}, 'fleet': {'vehicles': vehicles, 'profiles': [{'name': 'car'}]}}
